@@ -10,7 +10,9 @@ import Mathlib.Tactic.FieldSimp
 import Mathlib.Algebra.Order.Field.Basic
 import Mathlib.Data.Rat.Floor
 
-namespace Nitime.F64
+/- own namespace: `Lemmas/F64Bound.lean` (C01) declares lemmas of the same names in `Nitime.F64` -/
+namespace Nitime.C02F
+open Nitime.F64
 
 theorem pow2_eq_zpow (e : Int) : pow2 e = (2 : Rat) ^ e := by
   unfold pow2
@@ -202,7 +204,7 @@ theorem rne_chain3 (t F : Rat) (hF : 0 < F) :
     rw [e, abs_mul]
     exact mul_le_mul_of_nonneg_left h4 (abs_nonneg _)
 
-end Nitime.F64
+end Nitime.C02F
 
 namespace Nitime.C02
 open Nitime
@@ -329,16 +331,16 @@ theorem arangeLen_exact (l : Nat) (dt : Int) (hdt : 0 < dt) (hl : 0 < l)
     rw [h1] at hfit; exact_mod_cast hfit
   have hd : d < 2 ^ 53 := lt_of_le_of_lt (Nat.le_mul_of_pos_left d hl) hld
   have hl' : l < 2 ^ 53 := lt_of_le_of_lt (Nat.le_mul_of_pos_right l hd0) hld
-  rw [h1, F64.ofInt_natCast _ hld, F64.ofInt_natCast d hd]
+  rw [h1, C02F.ofInt_natCast _ hld, C02F.ofInt_natCast d hd]
   unfold F64.fdiv
   have hq : ((l * d : Nat) : Rat) / (d : Rat) = (l : Rat) := by
     have : (d : Rat) ≠ 0 := by exact_mod_cast hd0.ne'
     push_cast; field_simp
-  rw [hq, F64.rne_natCast l hl', F64.ceil_natCast]
+  rw [hq, C02F.rne_natCast l hl', C02F.ceil_natCast]
   simp
 
 section floatchain
-open Nitime.F64
+open Nitime.F64 Nitime.C02F
 open Nitime.C01 (toPs)
 theorem cf_exact (u : TimeUnit) : cf u = (Generated.factor u : Rat) := by
   unfold cf; cases u <;> decide +kernel
@@ -670,7 +672,8 @@ theorem same_sampling_interval_rate (u : TimeUnit) (x : Rat) (k : Int) (hx : 0 <
   · refine ⟨fdiv (ofInt (rint (periodF (frequency (fdiv 1 x) u)))) (cf u), ?_, ?_⟩
     · simp only [intervalOfRate, toPeriod]
       rw [if_neg (by rw [hfreq]; exact hzpos.ne')]
-    · simp only [toPs, C01.toPsF, fmul, fdiv, periodF, hs, hps, h1, ofInt, hfac, hfreq, cf_exact]
+    · rw [hfreq]
+      simp only [toPs, C01.toPsF, fmul, fdiv, periodF, hs, hps, h1, ofInt, hfac, cf_exact]
       exact c2
 
 end floatchain
